@@ -31,6 +31,8 @@ REPO = os.environ.get('VERIF_REPO', '/repo')
 real_time = time.time
 real_sleep = time.sleep
 real_urandom = os.urandom
+import random as _random
+real_random = _random.random
 real_connect = sqlite3.connect
 real_open = builtins.open
 real_os = {
@@ -56,6 +58,7 @@ class Env:
         self.oplog = None         # list of (kind, relpath) when auditing
         self.busy_timeout = 0.0   # sqlite busy timeout forced on connections
         self.sleeps = 0
+        self.random_value = None
 
     # -- clients ---------------------------------------------------------
     def client(self):
@@ -71,6 +74,7 @@ class Env:
         self.hook = None
         self.oplog = None
         self.sleeps = 0
+        self.random_value = None
 
     def owned(self, path):
         root = self.root
@@ -135,6 +139,12 @@ def v_urandom(n):
         sub = b'\xbb' if count % 2 == 0 else b'\xcc'
         return b'\xaa' + sub + bytes([cid & 0xFF]) + count.to_bytes(13, 'big')
     return real_urandom(n)
+
+
+def v_random():
+    if ENV.active and ENV.random_value is not None and _from_library():
+        return ENV.random_value
+    return real_random()
 
 
 # -------------------------------------------------------------- sqlite ---
@@ -269,6 +279,7 @@ def install():
     time.time = v_time
     time.sleep = v_sleep
     os.urandom = v_urandom
+    _random.random = v_random
     sqlite3.connect = v_connect
     builtins.open = v_open
     io.open = v_open
